@@ -1,12 +1,184 @@
+// vcheck decides the static clauses of one property of go-ipa (DESIGN.md).
+//
+//	vcheck -verif /verif -repo /repo C07 quick|thorough
+//	vcheck -verif /verif -repo /repo C07 replay <file>
+//	vcheck ... dump <prop>         (print all obligations)
 package main
 
 import (
-	_ "golang.org/x/tools/go/callgraph/cha"
-	_ "golang.org/x/tools/go/callgraph/vta"
-	_ "golang.org/x/tools/go/packages"
-	_ "golang.org/x/tools/go/ssa"
-	_ "golang.org/x/tools/go/ssa/ssautil"
-	_ "golang.org/x/tools/go/types/typeutil"
+	"encoding/json"
+	"flag"
+	"fmt"
+	"os"
+	"os/exec"
+	"runtime/debug"
+	"strconv"
+	"sync"
+	"time"
+
+	"verif/checker/core"
+	"verif/checker/rules"
 )
 
-func main() {}
+func main() {
+	verif := flag.String("verif", "/verif", "verification directory")
+	repo := flag.String("repo", "/repo", "repository to analyse (current working tree)")
+	cfgName := flag.String("config", "amd64", "build configuration (child mode)")
+	emit := flag.String("emit", "", "child mode: write result JSON here instead of finishing")
+	flag.Parse()
+	args := flag.Args()
+	if len(args) < 2 {
+		fmt.Fprintln(os.Stderr, "usage: vcheck [-verif d] [-repo d] <property> quick|thorough|replay <file>|dump")
+		os.Exit(2)
+	}
+	prop, mode := args[0], args[1]
+	started := time.Now()
+	seed := int64(0)
+	if s := os.Getenv("VERIF_SEED"); s != "" {
+		if v, err := strconv.ParseInt(s, 10, 64); err == nil {
+			seed = v
+		}
+	}
+	spec, ok := rules.Props[prop]
+	if !ok {
+		fmt.Fprintf(os.Stderr, "unknown property %s\n", prop)
+		os.Exit(2)
+	}
+
+	if *emit != "" { // child: one configuration
+		res := runOne(*repo, *verif, prop, mode, *cfgName, spec)
+		b, _ := json.Marshal(res)
+		if err := os.WriteFile(*emit, b, 0o644); err != nil {
+			fmt.Fprintln(os.Stderr, err)
+			os.Exit(2)
+		}
+		return
+	}
+
+	switch mode {
+	case "quick", "dump", "replay":
+		tier := "quick"
+		res := runOne(*repo, *verif, prop, tier, "amd64", spec)
+		if mode == "dump" {
+			for _, o := range res.Obs {
+				fmt.Printf("%-11s %-4s %s  @%s  %s %v\n", o.Status, o.Rule, o.Construct, o.Pos, o.Detail, o.Facts)
+			}
+			for _, f := range res.Floors {
+				fmt.Printf("floor %-4s min=%d got=%d (%s)\n", f.Rule, f.Min, f.Got, f.What)
+			}
+			return
+		}
+		if mode == "replay" {
+			if len(args) < 3 {
+				fmt.Fprintln(os.Stderr, "replay needs a file")
+				os.Exit(2)
+			}
+			os.Exit(replay(res, args[2]))
+		}
+		os.Exit(res.Finish(*verif, seed, started, "other", spec.Explanation, spec.Trusted, spec.Assumptions))
+	case "thorough":
+		// one child process per configuration (memory isolation), results merged
+		self, _ := os.Executable()
+		results := make([]*core.Result, len(core.Configs))
+		var wg sync.WaitGroup
+		tmp, err := os.MkdirTemp("", "vcheck-")
+		if err != nil {
+			fmt.Fprintln(os.Stderr, err)
+			os.Exit(2)
+		}
+		defer os.RemoveAll(tmp)
+		for i, c := range core.Configs {
+			wg.Add(1)
+			go func(i int, c core.Config) {
+				defer wg.Done()
+				out := fmt.Sprintf("%s/%d.json", tmp, i)
+				cmd := exec.Command(self, "-verif", *verif, "-repo", *repo, "-config", c.Name, "-emit", out, prop, "thorough")
+				cmd.Stderr = os.Stderr
+				if err := cmd.Run(); err != nil {
+					results[i] = &core.Result{Prop: prop, Tier: "thorough", Configs: []string{c.Name}, LoadErrors: []string{fmt.Sprintf("child %s failed: %v", c.Name, err)}, Rules: map[string]string{}}
+					return
+				}
+				b, err := os.ReadFile(out)
+				var r core.Result
+				if err == nil {
+					err = json.Unmarshal(b, &r)
+				}
+				if err != nil {
+					results[i] = &core.Result{Prop: prop, Tier: "thorough", Configs: []string{c.Name}, LoadErrors: []string{fmt.Sprintf("child %s result unreadable: %v", c.Name, err)}, Rules: map[string]string{}}
+					return
+				}
+				results[i] = &r
+			}(i, c)
+		}
+		wg.Wait()
+		res := results[0]
+		if res.Extra == nil {
+			res.Extra = map[string]any{}
+		}
+		for _, r := range results[1:] {
+			res.Merge(r)
+		}
+		res.Tier = "thorough"
+		os.Exit(res.Finish(*verif, seed, started, "other", spec.Explanation, spec.Trusted, spec.Assumptions))
+	default:
+		fmt.Fprintln(os.Stderr, "unknown mode", mode)
+		os.Exit(2)
+	}
+}
+
+func runOne(repo, verif, prop, tier, cfgName string, spec *rules.Spec) (res *core.Result) {
+	cfg, ok := core.ConfigByName(cfgName)
+	if !ok {
+		return &core.Result{Prop: prop, Tier: tier, Rules: map[string]string{}, LoadErrors: []string{"unknown config " + cfgName}}
+	}
+	defer func() {
+		if e := recover(); e != nil {
+			msg := fmt.Sprintf("PANIC in checker (%s): %v\n%s", cfgName, e, debug.Stack())
+			if res == nil {
+				res = &core.Result{Prop: prop, Tier: tier, Rules: map[string]string{}, Configs: []string{cfgName}}
+			}
+			res.LoadErrors = append(res.LoadErrors, msg)
+		}
+	}()
+	p, err := core.Load(repo, cfg)
+	if err != nil {
+		return &core.Result{Prop: prop, Tier: tier, Rules: map[string]string{}, Configs: []string{cfgName}, LoadErrors: []string{fmt.Sprintf("%s: %v", cfgName, err)}}
+	}
+	run := core.NewRun(p, prop, tier)
+	ctx := &rules.Ctx{Run: run, P: p, Verif: verif, Tier: tier}
+	for _, rule := range spec.Rules {
+		rule(ctx)
+	}
+	res = run.Result()
+	return res
+}
+
+func replay(res *core.Result, file string) int {
+	b, err := os.ReadFile(file)
+	if err != nil {
+		fmt.Fprintln(os.Stderr, err)
+		return 2
+	}
+	var rp struct {
+		Obligation core.Ob `json:"obligation"`
+	}
+	if err := json.Unmarshal(b, &rp); err != nil {
+		fmt.Fprintln(os.Stderr, err)
+		return 2
+	}
+	found := false
+	code := 0
+	for _, o := range res.Obs {
+		if o.Rule == rp.Obligation.Rule && o.Construct == rp.Obligation.Construct {
+			found = true
+			fmt.Printf("%s %s %s at %s: %s %v\n", o.Status, o.Rule, o.Construct, o.Pos, o.Detail, o.Facts)
+			if o.Status != core.Discharged {
+				code = 1
+			}
+		}
+	}
+	if !found {
+		fmt.Printf("obligation %s:%s no longer produced on this tree\n", rp.Obligation.Rule, rp.Obligation.Construct)
+	}
+	return code
+}
